@@ -359,7 +359,8 @@ Variants(e) ==
              { <<"BadNumber", [e EXCEPT !.v = x]>> : x \in {e.v \o "x", "1.5", "--1", "0x10", "1e3", "1_000"} }
              \cup { <<"UnknownUnit", [e EXCEPT !.v = Digs(e.v) \o u]>> : u \in {"T", "KB", "B", " M", "KK"} }
              \cup { <<"TooBig", [e EXCEPT !.v = x]>> :
-                       x \in {"9999999999G", "8589934592G", "9007199254740992K", "99999999999999999999"} }
+                       x \in {"9999999999G", "8589934592G", "9007199254740992K", "99999999999999999999",
+                               "17179869184G", "17179869185G"} }    \* the last two are 0 and 1G modulo 2^64
              \cup { <<"OutOfRange", [e EXCEPT !.v = x]>> : x \in {"-1", "-1K"} }
            ELSE {})
      \cup (IF e.t = "key" /\ e.k = "port" THEN { <<"OutOfRange", [e EXCEPT !.v = "65536"]>>,
